@@ -91,18 +91,18 @@ def register(reg):
     reg.overrides["construct:datetime.timedelta"] = _timedelta_ctor
 
     reg.contract(
-        "werkzeug/http.py:parse_age", prop="C07,C06", params={"value": "Optional[str]"},
+        "werkzeug/http.py:parse_age", prop="C07,C06", replay="pure", params={"value": "Optional[str]"},
         ensures=["implies(value is None or len(value) == 0, result is None)",
                  "result is None or (isinstance(result, timedelta) and result.seconds_total >= 0)"],
         raises={},   # nothing escapes: int() failures and timedelta overflow are caught
     )
     reg.contract(
-        "werkzeug/http.py:dump_age", prop="C06,C16", cases=[{"age": "Optional[int]"}], returns="Optional[str]",
+        "werkzeug/http.py:dump_age", prop="C06,C16", replay="pure", cases=[{"age": "Optional[int]"}], returns="Optional[str]",
         ensures=["(result is None) == (age is None)", "implies(age is not None, result == str(age))"],
         raises={"ValueError": "age is not None and age < 0"},
     )
     reg.contract(
-        "werkzeug/http.py:quote_etag", prop="C06,C16", params={"etag": "str", "weak": "bool"}, returns="str",
+        "werkzeug/http.py:quote_etag", prop="C06,C16", replay="pure", params={"etag": "str", "weak": "bool"}, returns="str",
         ensures=["result == ('W/' if weak else '') + '\"' + etag + '\"'"],
         raises={"ValueError": "'\"' in etag"},
     )
